@@ -2,6 +2,7 @@ package crypto
 
 import (
 	"fmt"
+	"strings"
 	"testing"
 
 	"github.com/gnolang/gno/tm2/pkg/amino"
@@ -686,6 +687,12 @@ func c44GExec(ctx *vk.Ctx, c c44MCase) error {
 	}()
 	if pv != nil {
 		if !ok && ctx.Known(c44KnownGas) {
+			return nil
+		}
+		if !ok && strings.Contains(fmt.Sprint(pv), "unmarshal to multisig.Multisignature failed") {
+			// an inconsistent shape in which the walk reaches a nested multisig key whose
+			// signature bytes do not decode: the consumer's documented MustUnmarshal
+			ctx.Class("undecodable-nested-in-inconsistent-shape")
 			return nil
 		}
 		return fmt.Errorf("DefaultSigVerificationGasConsumer panicked on a decodable multisignature (shape consistent=%v; %d keys, signature %x): %v", ok, len(c.Keys), bz, pv)
